@@ -710,6 +710,18 @@ def run_impl(case: dict) -> dict:
             finally:
                 logging.disable(logging.NOTSET)
             forest = rec.take()
+            if err:
+                # an exception unwound through the middle of a delivery (e.g. RecursionError in a broadcast storm): the call tree of
+                # this op is incomplete, so the trace stops being comparable here; the loads it left behind are still checked
+                oracle.append({"kind": "exception", "op": oi, "detail": err})
+                for k, l in enumerate(w.links):
+                    if not l.current_load <= l.bandwidth:
+                        oracle.append({"kind": "load-exceeds-bandwidth", "op": oi, "medium": "wired", "k": k,
+                                       "load": exact_bytes(l.current_load), "cap": lcap[k], "at": "after-exception"})
+                for hz, name, ifs in w.chans:
+                    if not w.net.airspace.bandwidth_load.get(hz, 0.0) <= w.net.airspace.get_frequency_max_capacity_mbps(name):
+                        oracle.append({"kind": "load-exceeds-bandwidth", "op": oi, "medium": "wireless", "k": hz, "at": "after-exception"})
+                break
             seg: List[dict] = []
             for e in forest:
                 if e["t"] != "T":
@@ -728,10 +740,9 @@ def run_impl(case: dict) -> dict:
                 disabled.clear()
             if seg or op[0] not in ("tick", "step"):
                 segment(oi, seg, dump(w))
-            if err:
-                oracle.append({"kind": "exception", "op": oi, "detail": err})
-    lines.append("dump")
-    impl.append(dump(w))
+        else:
+            lines.append("dump")
+            impl.append(dump(w))
     if getattr(w, "env", None) is not None:
         try:
             w.env.close()
